@@ -56,6 +56,7 @@ void mc_count(const char *name, long n);
 long mc_get(const char *name);
 void mc_sample(const char *fmt, ...) __attribute__((format(printf, 1, 2)));
 void mc_rule(const char *fmt, ...) __attribute__((format(printf, 1, 2))); /* how cases are enumerated (evidence) */
+void mc_set_context(const char *ctx); /* appended to sanitizer signatures: names the situation being probed */
 void mc_outcome(uint64_t h); /* record a distinct observed outcome (hash) */
 int  mc_deadline_hit(void);
 int  mc_asan_seen(void);     /* number of ASan reports in this process so far */
